@@ -187,6 +187,14 @@ CHECKS = {
         note="Partial: the evaluators around the resolution core (bind, square_bracket, hash, array strategies, printers) are end-to-end only; BLOCK / BlockResultArray / Owner returns are not modelled; recursion in the model is fuel-bounded (fuel 40 in the drivers).",
         technique="Lean 4 proof (mutual structural recursion, induction on fuel) + four differential streams over hooks + end-to-end reference-model comparison",
     ),
+    "C12": dict(
+        category="proof",
+        text="Invariant by induction over operations, proved in Lean on the table model of the analysis: for EVERY initial table and EVERY sequence of writes outside the Builtin frame and calls of configured methods (any receivers, arguments), each Builtin-frame entry (method type with return type and flags, declared parameter types, overloads) is unchanged (builtin_invariant), and the type of a configured call is the same after the program as before it (probe_independent). "
+             "The premise (no write reaches a Builtin-frame key; results are computed on copies) is checked against the real analyser on every program by the in-process `analyze` correspondence op through a verif hook that renders all Builtin-frame TFrame entries before and after the four rounds; three defects it exposed were repaired by fix: commits. Black-box: a probe file over every configured method of the literal classes prints the same alone and appended to corpus / generated programs.",
+        design="DESIGN.md §4 C12",
+        note="Partial: pointer sharing between T values is not representable in the functional model; it is observed through the snapshot hook (all entries, every program) instead of proved. Programs reopening configured classes are excluded as in the statement.",
+        technique="Lean 4 proof (invariant by induction over operation sequences) + in-process snapshot correspondence over a hook + black-box probe comparison",
+    ),
     "C17": dict(
         category="proof",
         text="Scope core on the Go-map model of TFrame: Lean proves for EVERY sequence of writes performed inside a block that a key absent from the entry snapshot (and not written back) is absent after the block, that outer variables keep what the block assigned to them, that a shadowed variable gets its saved value back (distinct restore keys), "
